@@ -154,7 +154,10 @@ def _network(n, n_agents, cfg=None):
     if t == 'embedding':
         return ss.EmbeddingNet(duration=ss.lognorm_ex(mean=n.get('duration', 5), std=1.0)) if 'duration' in n else ss.EmbeddingNet()
     if t == 'erdosrenyi':
-        return ss.ErdosRenyiNet(p=n.get('p', 0.05))
+        kw = dict(p=n.get('p', 0.05))
+        if 'dur' in n:      # a number, or dict(dist=<family>, pars={...}): edge durations drawn per source agent
+            kw['dur'] = getattr(ss, n['dur']['dist'])(**n['dur'].get('pars', {})) if isinstance(n['dur'], dict) else n['dur']
+        return ss.ErdosRenyiNet(**kw)
     if t == 'static':
         return ss.StaticNet(n_contacts=n.get('n_contacts', 4))
     if t == 'disk':
@@ -166,7 +169,7 @@ def _network(n, n_agents, cfg=None):
     if t == 'agepools':
         # the documented MixingPools set-up: the same age brackets as sources and as destinations
         cut = n.get('cut', 15)
-        names = [d.get('name', d['type']) for d in (cfg or {}).get('diseases', [])] or ['sir']
+        names = [n['diseases']] if n.get('diseases') else ([d.get('name', d['type']) for d in (cfg or {}).get('diseases', [])] or ['sir'])
         mk = lambda: {'young': ss.AgeGroup(0, cut), 'old': ss.AgeGroup(cut, None)}
         return ss.MixingPools(diseases=names[0], beta=n.get('beta', 0.2), src=mk(), dst=mk(), contacts=n.get('contacts', [[2.4, 0.5], [0.9, 0.2]]))
     raise ValueError(t)
